@@ -232,7 +232,11 @@ class PE:
                 v = self.expr(it.context_expr, env, func, depth)
                 if it.optional_vars is not None:
                     self.assign(it.optional_vars, v, env, func, depth, s)
-            self.block(s.body, env, func, depth)
+            self.calls.append(('<with-begin>', [norm(it.context_expr) for it in s.items], {}, s))
+            try:
+                self.block(s.body, env, func, depth)
+            finally:
+                self.calls.append(('<with-end>', [], {}, s))
             return
         if isinstance(s, ast.For):
             it = self.expr(s.iter, env, func, depth)
@@ -251,10 +255,14 @@ class PE:
             # loop over an unknown collection: one generic iteration
             if not (self.loop_hook is not None and self.loop_hook(self, s, env)):
                 self.assign(s.target, Opaque('elem(%s)' % norm(s.iter)), env, func, depth, s)
+            self.calls.append(('<loop-begin>', [it, self.loc_text(s.iter, env, func, depth) if isinstance(s.iter, (ast.Name, ast.Attribute, ast.Subscript)) else norm(s.iter)], {}, s))
             try:
-                self.block(s.body, env, func, depth)
-            except (_Continue, _Break):
-                pass
+                try:
+                    self.block(s.body, env, func, depth)
+                except (_Continue, _Break):
+                    pass
+            finally:
+                self.calls.append(('<loop-end>', [], {}, s))
             return
         if isinstance(s, ast.Try):
             self.block(s.body, env, func, depth)
@@ -713,6 +721,8 @@ class PE:
             other = a if b is None else b
             if isinstance(other, basic):
                 return (other is None) == isinstance(op, ast.Eq)
+            if self.atoms_not_none and other is not None:
+                return isinstance(op, ast.NotEq)
         if isinstance(a, P) and isinstance(b, P) and a == b and isinstance(op, (ast.Eq, ast.LtE, ast.GtE)):
             return True
         return None
@@ -727,7 +737,7 @@ class PE:
                 if isinstance(v, (list, tuple)):
                     args.extend(v)
                 else:
-                    args.append(Opaque('*' + norm(a.value)))
+                    args.append(Opaque('*' + str(getattr(v, 'text', norm(a.value)))))
             else:
                 args.append(self.expr(a, env, func, depth))
         kw = {k.arg: self.expr(k.value, env, func, depth) for k in e.keywords if k.arg is not None}
@@ -740,7 +750,8 @@ class PE:
                 while i < len(sig) and sig[i] in kw and sig[i] not in ('dtype', 'out', 'keepdims', 'axis', 'mode', 'ddof'):
                     args.append(kw.pop(sig[i]))
                     i += 1
-        ctext = name
+        resolved = self.model.resolve(func.mod, e.func)
+        ctext = resolved
         if ctext is None and isinstance(e.func, ast.Attribute):
             ctext = '%s.%s' % (self.loc_text(e.func.value, env, func, depth) if isinstance(e.func.value, (ast.Name, ast.Attribute, ast.Subscript, ast.Call)) else norm(e.func.value), e.func.attr)
         self.calls.append((ctext or norm(e.func), args, kw, e))
